@@ -556,3 +556,23 @@ mod tests {
         test_cp_borsh_generic(&ctx);
     }
 }
+
+/// Verification hooks (feature `strand_verif` only): raw constructors /
+/// accessors for the wrapper types.
+#[cfg(feature = "strand_verif")]
+pub mod verif {
+    use super::*;
+
+    pub fn e_raw(v: RistrettoPoint) -> RistrettoPointS {
+        RistrettoPointS(v)
+    }
+    pub fn x_raw(v: Scalar) -> ScalarS {
+        ScalarS(v)
+    }
+    pub fn e_val(e: &RistrettoPointS) -> &RistrettoPoint {
+        &e.0
+    }
+    pub fn x_val(x: &ScalarS) -> &Scalar {
+        &x.0
+    }
+}
